@@ -21,7 +21,7 @@ import (
 // role, i.e. one that did not exist in the pinned tree — is replaced by the helper's body, in SSA form
 // (blocks cloned, parameters replaced by the arguments, returns turned into jumps to the continuation
 // with φ-nodes for the results, single unconditional defers turned into calls at the helper's exits).
-// The same is done for a few generic standard-library loops (maps.Copy, slices.Contains, …) whose
+// The same is done for a few generic standard-library loops (maps.Copy, slices.IndexFunc, …) whose
 // hand-written form the rules already understand. Helpers that are no longer referenced afterwards
 // are dropped from the function list, so no rule sees the extracted fragment out of its context.
 //
@@ -35,7 +35,9 @@ import (
 // return, helpers with closures that are called from more than one site.
 
 var stdInline = map[string]bool{
-	"maps.Copy": true, "slices.Contains": true, "slices.Index": true,
+	"maps.Copy": true,
+	// slices.Contains / slices.Index over a constant table are understood as membership tests where they
+	// stand (memberOf in flow.go); slices.IndexFunc / ContainsFunc take a predicate and are inlined
 	"slices.IndexFunc": true, "slices.ContainsFunc": true,
 }
 
@@ -359,6 +361,10 @@ func (p *Prog) inlineHelpers() {
 		root := rootFunc(f)
 		if il.helper[root] && !live[root] && !(token.IsExported(root.Name()) && exportedRecv(root)) {
 			delete(p.byName, shortName(f))
+			if p.Dropped == nil {
+				p.Dropped = map[*ssa.Function]bool{}
+			}
+			p.Dropped[root] = true
 			continue
 		}
 		kept = append(kept, f)
